@@ -2995,6 +2995,17 @@ impl Block {
             }
 
             //
+            // block id
+            //
+            if Some(self.id) != previous_block.id.checked_add(1) {
+                error!(
+                    "ERROR 820390: block id {} does not follow the id of the previous block {}",
+                    self.id, previous_block.id
+                );
+                return false;
+            }
+
+            //
             // treasury
             //
             let mut expected_treasury = previous_block.treasury;
